@@ -26,6 +26,17 @@ pub trait NamingContext {
 
     /// Apply serde naming convention transformations
     fn apply_naming_convention(&self, field_name: &str, convention: RenameRule) -> String {
+        // serde_rename_rule lower-cases the first *byte* for camelCase, which panics on a
+        // name such as `größe`/`__` (multi-byte first character, or nothing left after the
+        // underscores). Lower-case the first character instead.
+        if matches!(convention, RenameRule::CamelCase) {
+            let pascal = RenameRule::PascalCase.apply_to_field(field_name);
+            let mut chars = pascal.chars();
+            return match chars.next() {
+                Some(first) => first.to_ascii_lowercase().to_string() + chars.as_str(),
+                None => pascal,
+            };
+        }
         convention.apply_to_field(field_name)
     }
 
@@ -71,6 +82,14 @@ pub trait NamingContext {
         if let Some(rename) = variant_rename {
             rename.to_string()
         } else if let Some(convention) = enum_rename_all {
+            // Same first-byte slicing issue as above for camelCase on a non-ASCII variant name
+            if matches!(convention, RenameRule::CamelCase) {
+                let mut chars = variant_name.chars();
+                return match chars.next() {
+                    Some(first) => first.to_ascii_lowercase().to_string() + chars.as_str(),
+                    None => String::new(),
+                };
+            }
             convention.apply_to_variant(variant_name)
         } else {
             variant_name.to_string()
